@@ -86,7 +86,7 @@ def s_unit_and_monitor(ctx):
                   "divide the number of initial positions; distinct by (optimizer, seed)")
     ctx.monitor_rule = ("every warm-start dict lying in the space and satisfying the constraints is evaluated within the first n_inits "
                         "rows when n_iter >= n_inits; best_score >= objective(w); chaining best_para of one run into the warm_start "
-                        "of the next never yields a worse best score")
+                        "of the next never yields a worse best score (model-based optimizers: also with the first run's search_data as warm_start_smbo)")
     rng = ctx.sub_rng("s")
     lits, cases = [], []
     names_all = gen.ALL if not ctx.quick else gen.FAST + gen.SLOW[:2]
@@ -165,13 +165,26 @@ def s_unit_and_monitor(ctx):
                               "%s: best_score %r < objective(warm start) %r" % (name, float(opt.best_score), fw))
                 break
         # chaining: best_para of this run as warm start of the next
-        if opt.best_para is not None and it % 3 == 0:
+        import inspect
+        takes_frame = "warm_start_smbo" in inspect.signature(gen.opt_class(name).__init__).parameters
+        if opt.best_para is not None and (it % 3 == 0 or takes_frame):
             spec2 = dict(spec, init=dict(warm_start=[dict(opt.best_para)]), seed=spec["seed"] + 1)
+            if takes_frame:
+                # "continue run 1": its best_para as warm start AND its search_data as the surrogate's warm_start_smbo
+                spec2["cfg"] = dict(spec["cfg"] or {}, warm_start_smbo=opt.search_data.copy())
             p2 = instr.run_steps(dict(spec2, calls=[dict(n_iter=1, memory=False, verbosity=False)]))
             if p2["opt"] is not None:
                 spec2["calls"] = [dict(n_iter=p2["n_inits"] + 2, memory=False, verbosity=False)]
                 o2 = instr.run_steps(spec2)
                 ctx.monitor_runs += 1
+                if o2["exc"] is None and takes_frame:
+                    wpos = tuple(int(np.nonzero(np.asarray(space[nme]) == opt.best_para[nme])[0][0]) for nme in names)
+                    first2 = [st["pos"] for st in o2["steps"][:p2["n_inits"]]]
+                    if (feas is None or wpos in feas) and wpos not in first2:
+                        ctx.violation(dict(kind="warm-start-not-evaluated", optimizer=name, chained=True),
+                                      dict(spec=dunit.spec_full(spec), warm=jsonable(opt.best_para), position=wpos, first_rows=first2, warm_start_smbo_rows=len(opt.search_data)),
+                                      "%s: continuing with best_para as warm start and search_data as warm_start_smbo, the warm-start point %r is not among the first n_inits=%d evaluated positions"
+                                      % (name, jsonable(opt.best_para), p2["n_inits"]))
                 if o2["exc"] is None and not (float(o2["opt"].best_score) >= float(opt.best_score)):
                     ctx.violation(dict(kind="chaining-worse", optimizer=name), dict(spec=dunit.spec_full(spec), best_para=jsonable(opt.best_para)),
                                   "%s: warm-starting with the previous best_para gives best_score %r < %r" % (name, float(o2["opt"].best_score), float(opt.best_score)))
